@@ -478,18 +478,29 @@ def _await_descriptor_upload(tor_protocol, onion, progress, await_all_uploads):
                     "wait_descriptor",
                     "Failed upload to {}".format(args[3])
                 )
+                if uploaded.called:
+                    return
                 if failed_uploads == attempted_uploads:
                     msg = "Failed to upload '{}' to: {}".format(
                         args[1],
                         ', '.join(failed_uploads),
                     )
                     uploaded.errback(RuntimeError(msg))
+                elif await_all and confirmed_uploads and \
+                        (len(failed_uploads) + len(confirmed_uploads)) == len(attempted_uploads):
+                    # the last outstanding upload failed, but others succeeded
+                    uploaded.callback(onion)
 
     # the first 'yield' should be the add_event_listener so that a
     # caller can do "d = _await_descriptor_upload()", then add the
     # service.
     yield tor_protocol.add_event_listener('HS_DESC', hs_desc)
-    yield uploaded
+    try:
+        yield uploaded
+    except Exception:
+        # also on failure: stop listening before passing the error on
+        yield tor_protocol.remove_event_listener('HS_DESC', hs_desc)
+        raise
     yield tor_protocol.remove_event_listener('HS_DESC', hs_desc)
     # ensure we show "100%" at the end
     if progress:
